@@ -24,6 +24,10 @@ def gen_watcher(rnd, name, np_choices=(0, 1, 2, 3, 4), stubborn_bias=0.0, **over
         beh = [rnd.choice(behs) for _ in range(rnd.randint(1, 4))]
     w = {'name': name, 'numprocesses': n, 'graceful_timeout': gt, 'warmup_delay': rnd.choice([0, 0, 0, .3]),
          'singleton': single, 'beh': beh}
+    if rnd.random() < .25:
+        w['stop_children'] = True
+        if rnd.random() < .5:
+            w['kids'] = [{'beh': {}}]
     w.update(over)
     return w
 
